@@ -101,7 +101,7 @@ Proof.
              destruct (acquire_shape cf s4 c k l) as [H1 H2]; cbv zeta in H1, H2; rewrite H1; sm; intros E;
              rewrite E in H2 end.
            destruct H2 as [H2|[H2|[[H2 _]|(y & v2 & e2 & H2 & H3 & H4)]]]; try discriminate.
-           exfalso. pose proof (dget_find _ _ _ H3) as Hg. rewrite dget_dset_in_same, (dget_find _ _ _ Hfind) in Hg.
+           exfalso. pose proof (dget_find _ _ _ H3) as Hg. sm. rewrite dget_dmove, dget_dset_in_same, (dget_find _ _ _ Hfind) in Hg.
            rewrite H4 in Hg. discriminate.
         -- cbv zeta. destruct (ackpt cf); cbn [fst snd]; [discriminate|]. intros [= <-]. sm.
            rewrite <- Hkx. apply (I_vdict _ _ I x v1 exp Hin Hse).
@@ -331,104 +331,279 @@ Proof.
   exact (conj (I_nodup _ _ I) (conj (I_sorted _ _ I) (I_stamp _ _ I))).
 Qed.
 
-(* keys of everything behind the head survive any step other than cache_clear() *)
-Definition kept (d d' : list slot) : Prop := forall key, In key (keys (tl d)) -> In key (keys d').
+(* ---- eviction order.  The ghost stamp of an entry is the logical time of its last USE: installation of the
+   placeholder, lookup hit, reuse after waiting for the flight, recomputation after expiry.  `touched k ck d d1`:
+   d1 is d after the uses of one step: nothing is lost, only entries of key k may carry a new stamp (>= ck), order
+   by stamp is kept. ---- *)
+Definition touched (k : key) (ck : nat) (d d1 : list slot) : Prop :=
+  StronglySorted stamp_lt d1 /\
+  (forall x, In x d -> exists y, In y d1 /\ sk y = sk x /\ ss x <= ss y) /\
+  (forall y, In y d1 -> (exists x, In x d /\ sk x = sk y /\ ss x = ss y) \/ (sk y = k /\ ck <= ss y)).
 
-Lemma kept_refl d : kept d d.
-Proof. intros key H. destruct d; [contradiction|]. now right. Qed.
-
-Lemma kept_tl d : kept d (tl d).
-Proof. intros key H. exact H. Qed.
-
-Lemma keys_dmove_in k st d key : In key (keys d) -> In key (keys (dmove k st d)).
+Lemma touched_refl k ck d : StronglySorted stamp_lt d -> touched k ck d d.
 Proof.
-  unfold dmove. destruct (dfind k d) as [x|] eqn:E; [|auto]. intros H.
-  unfold keys. rewrite map_app. apply in_or_app. cbn.
-  destruct (Nat.eq_dec key k) as [->|N]; [right; now left|left].
-  fold (keys (dremove k d)). rewrite keys_dremove. apply filter_In. split; [exact H|].
-  destruct (Nat.eqb_spec key k); [contradiction|reflexivity].
+  intros Hs. refine (conj Hs (conj _ _)).
+  - intros x Hx. exists x. auto.
+  - intros y Hy. left. exists y. auto.
 Qed.
 
-Lemma kept_dmove k st d : kept d (dmove k st d).
-Proof. intros key H. apply keys_dmove_in. destruct d; [contradiction|]. now right. Qed.
+Lemma touched_trans k ck d d1 d2 : touched k ck d d1 -> touched k ck d1 d2 -> touched k ck d d2.
+Proof.
+  intros (S1 & A1 & B1) (S2 & A2 & B2). refine (conj S2 (conj _ _)).
+  - intros x Hx. destruct (A1 x Hx) as (y & Hy & E1 & L1). destruct (A2 y Hy) as (z & Hz & E2 & L2).
+    exists z. refine (conj Hz (conj _ _)); [congruence|lia].
+  - intros z Hz. destruct (B2 z Hz) as [(y & Hy & E1 & E2)|H]; [|right; exact H].
+    destruct (B1 y Hy) as [(x & Hx & E3 & E4)|[E3 E4]].
+    + left. exists x. refine (conj Hx (conj _ _)); congruence.
+    + right. split; [congruence|lia].
+Qed.
 
-Lemma body_kept cf s c k l : kept (dict s) (dict (fst (body cf s c k l))).
+Lemma touched_app k ck d e st :
+  StronglySorted stamp_lt d -> (forall y, In y d -> ss y < st) -> ck <= st ->
+  touched k ck d (d ++ [mkslot k e st]).
+Proof.
+  intros Hs Hb Hc. refine (conj _ (conj _ _)).
+  - apply sorted_app_last; [exact Hs|]. intros y Hy. cbn. now apply Hb.
+  - intros x Hx. exists x. split; [apply in_or_app; now left|auto].
+  - intros y Hy. apply in_app_or in Hy. destruct Hy as [Hy|[<-|[]]]; [left; exists y; auto|right; cbn; auto].
+Qed.
+
+Lemma in_dset_in_conv x k e d : In x d -> exists y, In y (dset_in k e d) /\ sk y = sk x /\ ss y = ss x.
+Proof.
+  induction d as [|z r IH]; cbn [dset_in]; [intros []|].
+  destruct (Nat.eqb_spec (sk z) k) as [E|E]; intros [<-|H].
+  - eexists. split; [left; reflexivity|]. cbn. auto.
+  - exists x. split; [right; exact H|auto].
+  - exists z. split; [left; reflexivity|auto].
+  - destruct (IH H) as (y & Hy & E1 & E2). exists y. split; [right; exact Hy|auto].
+Qed.
+
+Lemma touched_dset_in k ck e d : StronglySorted stamp_lt d -> touched k ck d (dset_in k e d).
+Proof.
+  intros Hs. refine (conj (sorted_dset_in k e d Hs) (conj _ _)).
+  - intros x Hx. destruct (in_dset_in_conv x k e d Hx) as (y & Hy & E1 & E2). exists y. split; [exact Hy|]. split; [exact E1|lia].
+  - intros y Hy. left. apply in_dset_in in Hy. destruct Hy as [Hy|(z & Hz & Hk & ->)]; [exists y; auto|].
+    exists z. cbn. auto.
+Qed.
+
+Lemma touched_dmove k ck st d :
+  StronglySorted stamp_lt d -> (forall y, In y d -> ss y < st) -> ck <= st -> touched k ck d (dmove k st d).
+Proof.
+  intros Hs Hb Hc. refine (conj (sorted_dmove k st d Hs Hb) (conj _ _)).
+  - intros x Hx. unfold dmove. destruct (dfind k d) as [x0|] eqn:E; [|exists x; auto].
+    destruct (Nat.eq_dec (sk x) k) as [Ek|Nk].
+    + eexists. split; [apply in_or_app; right; left; reflexivity|]. cbn. split; [auto|]. specialize (Hb x Hx). lia.
+    + exists x. split; [|auto]. apply in_or_app. left. unfold dremove. apply filter_In. split; [exact Hx|].
+      destruct (Nat.eqb_spec (sk x) k); [contradiction|reflexivity].
+  - intros y Hy. apply in_dmove in Hy. destruct Hy as [Hy|(z & Hz & Hk & ->)]; [left; exists y; auto|].
+    right. cbn. auto.
+Qed.
+
+Lemma touched_dstore k ck e st d :
+  StronglySorted stamp_lt d -> (forall y, In y d -> ss y < st) -> ck <= st -> touched k ck d (dstore k e st d).
+Proof.
+  intros Hs Hb Hc. unfold dstore. destruct (dfind k d); [now apply touched_dset_in|now apply touched_app].
+Qed.
+
+(* what is missing after the optional eviction of the head was used before everything that remains *)
+Lemma touched_evict k ck d d1 d' :
+  touched k ck d d1 -> d' = d1 \/ d' = tl d1 ->
+  forall x, In x d -> (forall y, In y d' -> sk y <> sk x) -> forall y', In y' d' -> ss x < ss y'.
+Proof.
+  intros (S1 & A1 & _) Hd x Hx Hgone y' Hy'. destruct (A1 x Hx) as (y & Hy & E & L).
+  destruct Hd as [->| ->]; [exfalso; eapply Hgone; eauto|].
+  destruct d1 as [|h t]; [contradiction|]. cbn in *.
+  destruct Hy as [<-|Hy]; [|exfalso; eapply Hgone; eauto].
+  inversion S1 as [|a b Hs Hf]; subst. rewrite Forall_forall in Hf. specialize (Hf y' Hy'). unfold stamp_lt in Hf. lia.
+Qed.
+
+Definition touch_or_evict (k : key) (ck : nat) (d d' : list slot) : Prop :=
+  exists d1, touched k ck d d1 /\ (d' = d1 \/ d' = tl d1).
+
+Lemma body_dict cf s c k l :
+  dict (fst (body cf s c k l)) = dict s \/ dict (fst (body cf s c k l)) = tl (dict s) \/
+  dict (fst (body cf s c k l)) = dmove k (clk s) (dict s).
 Proof.
   unfold body. destruct (dfind k (dict s)) as [x|].
   - destruct (se x) as [l'|v e]; cbv zeta.
-    + destruct (full cf _); sm; [|apply kept_refl].
-      unfold evict. sm. destruct (dict s) as [|x0 r] eqn:E; sm; [intros key []|]. apply (kept_tl (x0 :: r)).
-    + rewrite release_eq. cbn [finish fst]. sm. apply kept_dmove.
-  - rewrite release_eq. cbn [finish fst]. sm. apply kept_refl.
+    + destruct (full cf _); sm; [|now left]. unfold evict. sm. destruct (dict s) as [|x0 r] eqn:E; sm; auto.
+    + right. right. rewrite release_eq. cbn [finish fst]. sm. reflexivity.
+  - left. rewrite release_eq. cbn [finish fst]. sm. reflexivity.
 Qed.
 
-Lemma acquire_kept cf s c k l : kept (dict s) (dict (fst (acquire cf s c k l))).
+Lemma body_ret_dict cf s c k l v :
+  snd (body cf s c k l) = RRet v -> dict (fst (body cf s c k l)) = dmove k (clk s) (dict s).
 Proof.
-  unfold acquire. rewrite lock_do_eq. destruct (snd (Lock.step _ _)); cbn [fst]; sm; try apply kept_refl.
-  match goal with |- context [body cf ?s1 c k l] => apply (body_kept cf s1 c k l) end.
+  unfold body. destruct (dfind k (dict s)) as [x|].
+  - destruct (se x) as [l'|v0 e]; cbv zeta; [discriminate|].
+    intros _. rewrite release_eq. cbn [finish fst]. sm. reflexivity.
+  - rewrite release_eq. destruct (snd (Lock.step _ _)); discriminate.
 Qed.
 
-Lemma kept_trans_sub d d1 d' : (forall key, In key (keys (tl d)) -> In key (keys (tl d1))) -> kept d1 d' -> kept d d'.
-Proof. intros H1 H2 key H. apply H2, H1, H. Qed.
-
-Lemma keys_tl_app d p key : In key (keys (tl d)) -> In key (keys (tl (d ++ [p]))).
+Lemma acquire_dict cf s c k l :
+  dict (fst (acquire cf s c k l)) = dict s \/ dict (fst (acquire cf s c k l)) = tl (dict s) \/
+  dict (fst (acquire cf s c k l)) = dmove k (clk s) (dict s).
 Proof.
-  destruct d as [|x r]; [contradiction|]. cbn. unfold keys. rewrite map_app. intros H. apply in_or_app. now left.
+  unfold acquire. rewrite lock_do_eq. destruct (snd (Lock.step _ _)); cbn [fst]; sm; auto.
+  match goal with |- context [body cf ?s1 c k l] => exact (body_dict cf s1 c k l) end.
 Qed.
 
-Lemma keys_tl_dset_in k e d : keys (tl (dset_in k e d)) = keys (tl d).
+Lemma after_uses cf s2 k ck d d' :
+  Inv cf s2 -> touched k ck d (dict s2) -> ck <= clk s2 ->
+  d' = dict s2 \/ d' = tl (dict s2) \/ d' = dmove k (clk s2) (dict s2) ->
+  touch_or_evict k ck d d'.
 Proof.
-  pose proof (keys_dset_in k e d) as H. destruct d as [|x r]; [reflexivity|].
-  cbn [dset_in] in *. destruct (Nat.eqb (sk x) k); cbn in *; congruence.
+  intros I2 HT Hc [->|[->| ->]].
+  - exists (dict s2). auto.
+  - exists (dict s2). auto.
+  - exists (dmove k (clk s2) (dict s2)). split; [|now left].
+    eapply touched_trans; [exact HT|]. apply touched_dmove; [apply (I_sorted _ _ I2)|apply (I_stamp _ _ I2)|exact Hc].
 Qed.
 
-Lemma step_kept cf s o : o <> Clear -> kept (dict s) (dict (fst (step cf s o))).
+Lemma step_uses cf s o :
+  Inv cf s -> o <> Clear ->
+  exists k, (call_key cf s o = Some k \/ dict (fst (step cf s o)) = dict s) /\
+            touch_or_evict k (clk s) (dict s) (dict (fst (step cf s o))).
 Proof.
-  intros Hne. destruct o as [c a|c v0|c e|c|c| |]; unfold step; try contradiction.
-  - destruct (Nat.ltb c (ncall cf)); cbn [negb fst]; [|apply kept_refl].
-    destruct (is_cidle (phase s c)); cbn [negb fst]; [|apply kept_refl].
-    destruct (is_zero_max cf); [apply kept_refl|].
-    destruct (dfind _ (dict s)) as [x|].
-    + destruct (se x) as [l|v1 exp].
-      * apply acquire_kept.
+  intros I Hne.
+  assert (Hsame : forall d', d' = dict s -> exists k, (call_key cf s o = Some k \/ d' = dict s) /\
+                                                  touch_or_evict k (clk s) (dict s) d').
+  { intros d' ->. exists 0. split; [now right|]. exists (dict s). split; [apply touched_refl, (I_sorted _ _ I)|now left]. }
+  destruct o as [c a|c v0|c e|c|c| |]; try contradiction.
+  - (* Call *)
+    unfold step.
+    destruct (Nat.ltb c (ncall cf)); cbn [negb fst]; [|now apply Hsame].
+    destruct (is_cidle (phase s c)); cbn [negb fst]; [|now apply Hsame].
+    destruct (is_zero_max cf); [now apply Hsame|].
+    exists (key_of cf a). split; [left; reflexivity|]. set (k := key_of cf a).
+    destruct (dfind k (dict s)) as [x|] eqn:Hfind.
+    + destruct (se x) as [l|v1 exp] eqn:Hse.
+      * apply (after_uses cf s k (clk s) (dict s) _ I); [apply touched_refl, (I_sorted _ _ I)|lia|apply acquire_dict].
       * destruct (expired exp (now s)); cbv zeta.
-        -- eapply kept_trans_sub; [|apply acquire_kept]. sm. intros key. now rewrite keys_tl_dset_in.
-        -- destruct (ackpt cf); cbn [fst]; sm; apply kept_dmove.
-    + cbv zeta. eapply kept_trans_sub; [|apply acquire_kept]. sm. intros key. apply keys_tl_app.
-  - destruct (phase s c) as [|k l t0|k l [w|] [|]|k v1 b|k [w|] [|]]; apply kept_refl.
-  - destruct (phase s c) as [|k l t0|k l [w|] [|]|k v1 b|k [w|] [|]]; apply kept_refl.
-  - destruct (phase s c) as [|k l t0|k l w b|k v1 b|k w b]; try apply kept_refl.
-    rewrite lock_do_eq. apply kept_refl.
-  - destruct (phase s c) as [|k l t0|k l w b|k v1 b|k w b]; try apply kept_refl.
-    + rewrite lock_do_eq. destruct (snd (Lock.step _ _)); cbn [fst]; sm; try apply kept_refl.
-      match goal with |- context [body cf ?s1 c k l] => apply (body_kept cf s1 c k l) end.
+        -- set (s4 := bump_clk _).
+           assert (I4 : Inv cf s4)
+             by exact (inv_touch cf _ k (hits s) (misses s) (inv_expire cf s k x v1 exp I Hfind Hse)).
+           apply (after_uses cf s4 k (clk s) (dict s) _ I4); [| unfold s4; sm; lia | apply acquire_dict].
+           unfold s4. sm. eapply touched_trans; [apply touched_dset_in, (I_sorted _ _ I)|].
+           apply touched_dmove; [apply sorted_dset_in, (I_sorted _ _ I)| |lia].
+           intros y Hy. apply in_dset_in in Hy. destruct Hy as [Hy|(z & Hz & _ & ->)]; [apply (I_stamp _ _ I), Hy|].
+           cbn. apply (I_stamp _ _ I), Hz.
+        -- exists (dmove k (clk s) (dict s)). split.
+           ++ apply touched_dmove; [apply (I_sorted _ _ I)|apply (I_stamp _ _ I)|lia].
+           ++ left. destruct (ackpt cf); reflexivity.
+    + cbv zeta. set (s2 := bump_clk _).
+      assert (I2 : Inv cf s2) by exact (inv_install cf s k I Hfind).
+      apply (after_uses cf s2 k (clk s) (dict s) _ I2); [| unfold s2; sm; lia | apply acquire_dict].
+      unfold s2. sm. apply touched_app; [apply (I_sorted _ _ I)|apply (I_stamp _ _ I)|lia].
+  - apply Hsame. unfold step. destruct (phase s c) as [|k l t0|k l [w|] [|]|k v1 b|k [w|] [|]]; reflexivity.
+  - apply Hsame. unfold step. destruct (phase s c) as [|k l t0|k l [w|] [|]|k v1 b|k [w|] [|]]; reflexivity.
+  - apply Hsame. unfold step. destruct (phase s c) as [|k l t0|k l w b|k v1 b|k w b]; try reflexivity.
+    rewrite lock_do_eq. reflexivity.
+  - (* Resume *)
+    unfold step.
+    destruct (phase s c) as [|k l t0|k l w b|k v1 b|k w b] eqn:Hp; try (now apply Hsame).
+    + rewrite lock_do_eq.
+      destruct (snd (Lock.step (locks s l) (Lock.Resume c))) eqn:Er; cbn [fst]; sm; try (now apply Hsame).
+      exists k. split; [left; cbn [call_key]; now rewrite Hp|].
+      set (s1 := set_lock s l _).
+      assert (I1 : Inv cf s1).
+      { assert (E : s1 = fst (step cf s (Resume c)) \/ True) by now right.
+        destruct (Lock.phase_of (locks s l) c) eqn:Hlp.
+        - exfalso. assert (E' : Lock.step (locks s l) (Lock.Resume c) = (locks s l, Lock.RRejected))
+            by (cbn [Lock.step]; now rewrite Hlp). rewrite E' in Er. discriminate.
+        - destruct (resume_cases (locks s l) c (L_inv _ _ _ _ _ (I_lp _ _ I) l) ltac:(congruence))
+            as [[E1 Hh]|[[E1 _]|[E1 _]]]; rewrite Er in E1; try discriminate.
+          apply (inv_lock_only cf s c k l t0 (Lock.Resume c) I Hp eq_refl). right. exact Hh.
+        - destruct (resume_cases (locks s l) c (L_inv _ _ _ _ _ (I_lp _ _ I) l) ltac:(congruence))
+            as [[E1 Hh]|[[E1 _]|[E1 _]]]; rewrite Er in E1; try discriminate.
+          apply (inv_lock_only cf s c k l t0 (Lock.Resume c) I Hp eq_refl). right. exact Hh. }
+      apply (after_uses cf s1 k (clk s) (dict s) _ I1); [apply touched_refl, (I_sorted _ _ I)|unfold s1; sm; lia|].
+      apply (body_dict cf s1 c k l).
     + destruct b.
-      * rewrite release_eq. apply kept_refl.
-      * destruct w as [[v2|e]|]; [| |apply kept_refl].
-        -- cbv zeta. rewrite release_eq. cbn [finish fst]. sm. intros key H.
-           assert (Hin : In key (keys (dict s))) by (destruct (dict s); [contradiction|now right]).
-           unfold dstore. destruct (dfind k (dict s)); [now rewrite keys_dset_in|].
-           unfold keys. rewrite map_app. apply in_or_app. now left.
-        -- rewrite release_eq. apply kept_refl.
-    + destruct b; [apply kept_refl|]. destruct w as [[v2|e]|]; apply kept_refl.
-  - apply kept_refl.
+      * apply Hsame. rewrite release_eq. reflexivity.
+      * destruct w as [[v2|e]|]; [| |now apply Hsame].
+        -- exists k. split; [left; cbn [call_key]; now rewrite Hp|]. cbv zeta. rewrite release_eq. cbn [finish fst]. sm.
+           exists (dstore k (EVal v2 (new_exp cf (now s))) (clk s) (dict s)). split; [|now left].
+           apply touched_dstore; [apply (I_sorted _ _ I)|apply (I_stamp _ _ I)|lia].
+        -- apply Hsame. rewrite release_eq. reflexivity.
+    + apply Hsame. destruct b; [reflexivity|]. destruct w as [[v2|e]|]; reflexivity.
+  - apply Hsame. reflexivity.
 Qed.
 
-(* eviction order: an entry whose key disappears from the dict in a step (other than cache_clear()) carries the
-   smallest stamp, i.e. it is the one whose last insertion / hit is the oldest *)
-Theorem lru_evicts_least_recent cf ops o x :
+(* LRU eviction at full strength (ttl included): an entry whose key disappears from the dict in a step other than
+   cache_clear() was last used (installed, hit, reused after a wait, or recomputed after expiry) strictly before
+   every entry that remains *)
+Theorem lru_evicts_oldest_use cf ops o x :
   o <> Clear -> In x (dict (run cf ops)) ->
   (forall y, In y (dict (fst (step cf (run cf ops) o))) -> sk y <> sk x) ->
-  forall y, In y (dict (run cf ops)) -> ss x <= ss y.
+  forall y', In y' (dict (fst (step cf (run cf ops) o))) -> ss x < ss y'.
 Proof.
-  intros Hne Hx Hgone y Hy. pose proof (reachable_inv cf ops) as I. set (s := run cf ops) in *.
-  pose proof (step_kept cf s o Hne) as HK.
-  destruct (dict s) as [|h t] eqn:Ed; [contradiction|].
-  assert (x = h).
-  { destruct Hx as [<-|Hx]; [reflexivity|]. exfalso.
-    assert (Hin : In (sk x) (keys (dict (fst (step cf s o))))) by (apply HK; cbn; apply in_keys, Hx).
-    unfold keys in Hin. apply in_map_iff in Hin. destruct Hin as (z & Hz1 & Hz2). eapply Hgone; eauto. }
-  subst x. pose proof (I_sorted _ _ I) as Hs. rewrite Ed in Hs. eapply sorted_head_min; eauto.
+  intros Hne Hx Hgone. destruct (step_uses cf (run cf ops) o (reachable_inv cf ops) Hne) as (k & _ & d1 & HT & Hd).
+  eapply touched_evict; eauto.
+Qed.
+
+(* stamps change only by a use: after a step every entry either carries the stamp it had, or belongs to the key
+   of the call that acted in this step and carries a stamp newer than everything before *)
+Theorem lru_stamp_is_last_use cf ops o y' :
+  o <> Clear -> In y' (dict (fst (step cf (run cf ops) o))) ->
+  (exists y, In y (dict (run cf ops)) /\ sk y = sk y' /\ ss y = ss y') \/
+  (call_key cf (run cf ops) o = Some (sk y') /\ clk (run cf ops) <= ss y').
+Proof.
+  intros Hne Hy. destruct (step_uses cf (run cf ops) o (reachable_inv cf ops) Hne) as (k & Hk & d1 & (_ & _ & HB) & Hd).
+  destruct Hk as [Hk|Hk]; [|left; exists y'; rewrite <- Hk; auto].
+  assert (Hin : In y' d1).
+  { destruct Hd as [E|E]; rewrite E in Hy; [exact Hy|]. destruct d1; [contradiction|now right]. }
+  destruct (HB y' Hin) as [H|[E L]]; [left; exact H|right]. split; [congruence|exact L].
+Qed.
+
+(* ... and every use does refresh the stamp: after a call that installs, hits or recomputes after expiry, and
+   after a waiter's reuse of a flight's result, the key (while it is in the dict) carries a stamp >= the clock,
+   i.e. newer than every stamp of the state before (lru_order) *)
+Definition fresh_k (k : key) (ck : nat) (d : list slot) : Prop := forall y, In y d -> sk y = k -> ck <= ss y.
+
+Lemma fresh_dmove k ck st d : ck <= st -> fresh_k k ck (dmove k st d).
+Proof.
+  intros Hc y Hy Hk. unfold dmove in Hy. destruct (dfind k d) as [x|] eqn:E.
+  - apply in_app_or in Hy. destruct Hy as [Hy|[<-|[]]]; [|cbn; exact Hc].
+    apply in_dremove in Hy. tauto.
+  - exfalso. apply (dfind_none_keys _ _ E). rewrite <- Hk. apply in_keys, Hy.
+Qed.
+
+Lemma fresh_after cf s2 c k l ck :
+  fresh_k k ck (dict s2) -> ck <= clk s2 -> fresh_k k ck (dict (fst (acquire cf s2 c k l))).
+Proof.
+  intros HF Hc. destruct (acquire_dict cf s2 c k l) as [E|[E|E]]; rewrite E.
+  - exact HF.
+  - intros y Hy. apply HF. destruct (dict s2); [contradiction|now right].
+  - now apply fresh_dmove.
+Qed.
+
+Theorem lru_use_refreshes cf ops o k :
+  ((exists c a, o = Call c a /\ key_of cf a = k /\ snd (step cf (run cf ops) o) <> RRejected /\
+      is_zero_max cf = false /\ (forall l, dget k (dict (run cf ops)) <> Some (EPlace l))) \/
+   (exists c l t0 v, o = Resume c /\ phase (run cf ops) c = CLockWait k l t0 /\
+      snd (step cf (run cf ops) o) = RRet v)) ->
+  forall y, In y (dict (fst (step cf (run cf ops) o))) -> sk y = k -> clk (run cf ops) <= ss y.
+Proof.
+  pose proof (reachable_inv cf ops) as I. set (s := run cf ops) in *.
+  intros [(c & a & -> & Hk & Hacc & Hz & Hnp)|(c & l & t0 & v & -> & Hp & Hr)].
+  - revert Hacc. unfold step.
+    destruct (Nat.ltb c (ncall cf)); cbn [negb]; [|cbn; congruence].
+    destruct (is_cidle (phase s c)); cbn [negb]; [|cbn; congruence].
+    rewrite Hz, Hk. intros _.
+    destruct (dfind k (dict s)) as [x|] eqn:Hfind.
+    + destruct (se x) as [l|v1 exp] eqn:Hse.
+      * exfalso. apply (Hnp l). rewrite (dget_find _ _ _ Hfind), Hse. reflexivity.
+      * destruct (expired exp (now s)); cbv zeta.
+        -- apply fresh_after; sm; [apply fresh_dmove|]; lia.
+        -- destruct (ackpt cf); cbn [fst]; sm; apply fresh_dmove; lia.
+    + cbv zeta. apply fresh_after; sm; [|lia].
+      intros y Hy Hky. apply in_app_or in Hy. destruct Hy as [Hy|[<-|[]]]; [|cbn; lia].
+      exfalso. apply (dfind_none_keys _ _ Hfind). rewrite <- Hky. apply in_keys, Hy.
+  - revert Hr. unfold step. rewrite Hp, lock_do_eq.
+    destruct (snd (Lock.step _ _)); cbn [fst snd]; try discriminate.
+    match goal with |- context [body cf ?s1 c k l] => intros Hr; rewrite (body_ret_dict cf s1 c k l v Hr) end.
+    sm. apply fresh_dmove. lia.
 Qed.
 
 (* ------------------------------------------------------------------------------------------------ *)
@@ -461,7 +636,8 @@ Proof.
     + destruct (expired exp (now s)) eqn:Hexp.
       * cbv zeta. intros _ H. exfalso. revert H. apply Hacq; [exact Hp|]. sm.
         pose proof (dget_find _ _ _ Hfind) as Hg.
-        pose proof (dget_dset_in_same k (EPlace (nlock s)) (dict s)) as Hg'. rewrite Hg in Hg'.
+        pose proof (dget_dmove k k (clk s) (dset_in k (EPlace (nlock s)) (dict s))) as Hg'.
+        rewrite dget_dset_in_same, Hg in Hg'.
         destruct (dget_some _ _ _ Hg') as (y & Hy & Hy' & _). eauto.
       * cbv zeta. intros _ H. exists x, exp. refine (conj eq_refl (conj _ Hexp)).
         destruct (ackpt cf); cbn [fst snd] in H; sm.
@@ -631,3 +807,75 @@ Example ex_reread_ttl :
   phase s 1 = CLockWait 0 0 0 /\ snd (step cfg_ttl2 s (Resume 1)) = RRet 5 /\
   dget 0 (dict s) = Some (EVal 5 (Some 3)).
 Proof. vm_compute. auto. Qed.
+
+(* ------------------------------------------------------------------------------------------------ *)
+(* F15 (fixed in /repo by 21d8dda): the behaviour before the fix, as a variant of `step`.  The expired entry is
+   replaced IN PLACE (position kept) although the recomputation is a use (the ghost stamp is refreshed all the
+   same); everything else is `step`.                                                                   *)
+(* ------------------------------------------------------------------------------------------------ *)
+Fixpoint dset_in_stamp (k : key) (e : entry) (st : nat) (d : list slot) : list slot :=
+  match d with
+  | [] => []
+  | x :: r => if Nat.eqb (sk x) k then mkslot k e st :: r else x :: dset_in_stamp k e st r
+  end.
+
+Definition old_expiry_step (cf : cfg) (s : st) (o : op) : st * res :=
+  match o with
+  | Call c a =>
+      let k := key_of cf a in
+      if andb (andb (Nat.ltb c (ncall cf)) (is_cidle (phase s c))) (negb (is_zero_max cf)) then
+        match dfind k (dict s) with
+        | Some x =>
+            match se x with
+            | EVal v exp =>
+                if expired exp (now s) then
+                  let l := nlock s in
+                  let s1 := set_flags s (f_inflight s) (orb (f_waited s) (waited cf s k)) in
+                  let s2 := set_counts s1 (hits s1) (misses s1) (currsize s1 - 1)%Z in
+                  let s3 := new_lock cf s2 k in
+                  let s4 := bump_clk (set_dict s3 (dset_in_stamp k (EPlace l) (clk s3) (dict s3))) in
+                  acquire cf s4 c k l
+                else step cf s o
+            | EPlace _ => step cf s o
+            end
+        | None => step cf s o
+        end
+      else step cf s o
+  | _ => step cf s o
+  end.
+
+Definition run_old (cf : cfg) (ops : list op) : st := final (old_expiry_step cf) init ops.
+
+(* maxsize = 2, ttl = 2: key 1 at time 0, key 2 at time 1, key 1 again at time 2 (expired: recomputed), then key 3 *)
+Definition cfg_f15 := mkcfg (Some 2) (Some 2) false false 1.
+Definition w_f15 :=
+  [Call 0 2; WrappedReturns 0 1; Resume 0; Tick; Call 0 4; WrappedReturns 0 2; Resume 0; Tick;
+   Call 0 2; WrappedReturns 0 3; Resume 0].
+
+(* under the OLD behaviour the statement of lru_evicts_oldest_use fails: the miss on key 3 evicts key 1, which was
+   recomputed (used) after key 2 -- no placeholder and no waited entry is evicted anywhere in this history *)
+Theorem lru_refuted_old_expiry_order :
+  exists cf ops o x y',
+    f_inflight (run_old cf (ops ++ [o])) = false /\ f_waited (run_old cf (ops ++ [o])) = false /\
+    o <> Clear /\ In x (dict (run_old cf ops)) /\
+    (forall y, In y (dict (fst (old_expiry_step cf (run_old cf ops) o))) -> sk y <> sk x) /\
+    In y' (dict (fst (old_expiry_step cf (run_old cf ops) o))) /\ ss y' < ss x.
+Proof.
+  exists cfg_f15, w_f15, (Call 0 6), (mkslot 1 (EVal 3 (Some 4)) 4), (mkslot 2 (EVal 2 (Some 3)) 2).
+  vm_compute. refine (conj eq_refl (conj eq_refl (conj _ (conj _ (conj _ (conj _ _)))))).
+  - discriminate.
+  - now left.
+  - intros y [<-|[<-|[]]]; discriminate.
+  - now left.
+  - lia.
+Qed.
+
+(* the same history on the model of the fixed code: the expired key is moved to the recent end when it is
+   recomputed, and the miss on key 3 evicts key 2 *)
+Example ex_f15_fixed :
+  no_inflight_eviction cfg_f15 (w_f15 ++ [Call 0 6]) /\ no_waited_eviction cfg_f15 (w_f15 ++ [Call 0 6]) /\
+  map sk (dict (run cfg_f15 (firstn 8 w_f15))) = [1; 2] /\
+  map sk (dict (run cfg_f15 (firstn 9 w_f15))) = [2; 1] /\
+  map (fun x => (sk x, ss x)) (dict (run cfg_f15 w_f15)) = [(2, 2); (1, 4)] /\
+  map sk (dict (run cfg_f15 (w_f15 ++ [Call 0 6]))) = [1; 3].
+Proof. vm_compute. auto 7. Qed.
